@@ -738,7 +738,52 @@ def r07_8(ctx):
                                         f"({want_v.hex()}, {want_rest.hex()})", func=m, trace=p.trace(8))
 
 
-@rule("R07.5", ["C07", "C09", "C16"], "T-FUN", floor=16)
+@rule("R07.9", ["C07", "C13"], "T-FUN", floor=1)
+def r07_9(ctx):
+    """Enum-typed fields keep the value that was on the wire: zigpy's fixed-width enums (trusted base) decode an undefined
+    value into a member carrying that very value; an enum class of bellows.types that hooks the lookup (``_missing_``) is
+    evaluated for undefined values of its width - the member it returns must carry the value it was given (a hook that folds
+    unknown values into one catch-all member makes decode(encode(v)) != v for every undefined v)."""
+    repo = ctx.repo
+    n_cls = 0
+    for mod in ("bellows.types.named", "bellows.types.struct", "bellows.types.basic"):
+        for st in repo.tree(mod).body:
+            if not isinstance(st, ast.ClassDef):
+                continue
+            c = repo.cls(mod, st.name)
+            if not c.is_enum:
+                continue
+            n_cls += 1
+            try:
+                miss = c.method("_missing_")
+            except KeyError:
+                ctx.ok(1, st.name)
+                continue
+            if miss.cls is None or not miss.mod.startswith("bellows"):
+                ctx.ok(1, st.name)
+                continue
+            ctx.fn(miss)
+            defined = {m.value for m in c.members().values() if isinstance(m.value, int)}
+            if "bitmap" in " ".join(c.base_names()).lower():
+                continue  # flags: combinations are ordinary values, not "undefined" ones
+            cand = [v for v in list(range(0, 256)) + [0x1234, 0xFFFE] if v not in defined]
+            cand = [v for v in (cand[:2] + cand[len(cand) // 2:len(cand) // 2 + 1] + [v for v in cand if v >= 0x80][:1] + cand[-1:])
+                    if v <= (0xFF if any(b.endswith("8") for b in c.base_names()) else 0xFFFF)]
+            px = PX(repo, inline=lambda g, aw: not g.is_async, max_depth=5)
+            for v in sorted(set(cand)):
+                def entry():
+                    return px.construct(c, st.name, [v], {}, None, None)
+
+                for p in px._run(entry):
+                    ctx.paths += 1
+                    got = p.value.value if p.terminal == "return" and isinstance(p.value, Member) else None
+                    ctx.require(got == v, f"enum-value:{st.name}", f"{st.name}(0x{v:02X}) - an undefined value as it can arrive in a frame - evaluates to "
+                                f"{p.value!r} ({p.terminal}); the decoded member must carry 0x{v:02X} so that the value read is the value sent", func=miss,
+                                trace=p.trace(8), props=("C07", "C13") if st.name in ("EmberIncomingMessageType", "EmberDeviceUpdate", "EmberJoinDecision") else ("C07",))
+    ctx.anchor(n_cls >= 50, f"enum classes of bellows.types examined: {n_cls}")
+
+
+@rule("R07.5", ["C07", "C09", "C16", "C08"], "T-FUN", floor=16)
 def r07_5(ctx):
     """Declared order and form equivalence: serialize_dict emits fields in schema order whatever mix or order of
     positional and keyword arguments is used; deserialize_dict consumes in schema order, each field from the
@@ -802,8 +847,11 @@ def r07_5(ctx):
         ok = (len(ps) == 1 and ps[0].terminal == "return" and isinstance(r, tuple) and isinstance(r[0], dict) and list(r[0].items()) == list(vals.items())
               and bytes(r[1]) == tail)
         ctx.require(ok, f"deserialize:{len(tail)}", f"deserialize_dict({(want + tail).hex()}) = {r!r:.100}; must give {vals} and remainder {tail.hex()!r}", func=des)
-    ps = px.explore(des, lambda: (None, {"data": want[:2], "schema": dict(schema)}))
-    ctx.require(len(ps) == 1 and ps[0].terminal == "raise", "deserialize:short", f"deserialize_dict on truncated data returns {ps[0].value!r:.60}", func=des)
+    # every proper prefix of the encoding - the empty one included (a frame cut right after its header) - is rejected
+    for cut in range(len(want)):
+        ps = px.explore(des, lambda: (None, {"data": want[:cut], "schema": dict(schema)}))
+        ctx.require(len(ps) == 1 and ps[0].terminal == "raise", f"deserialize:short:{cut}", f"deserialize_dict on data truncated to {cut} of {len(want)} bytes "
+                    f"returns {ps[0].value!r:.60}: a truncated frame then decodes (with fields missing) and reaches a pending command or the callbacks", func=des)
     # _ezsp_frame = header ++ serialize_dict(args, kwargs, tx_schema of that command)
     f = repo.func(f"{PROTO}:ProtocolHandler._ezsp_frame")
     ctx.fn(f)
